@@ -108,6 +108,15 @@ func genC15(r *rand.Rand, run int, _ string) *Scenario {
 		names = []string{"default", "", "users/eu"}[:1+r.IntN(3)]
 	}
 
+	if chance(r, 0.15) {
+		// Cache names and keys whose concatenation is ambiguous under a separator somebody might join them with:
+		// ("t", "1<sep>k") and ("t<sep>1", "k"). They are different caches and different keys.
+		sep := pick(r, ":", "/", "|", ".", "-", "_", "#", ",", " ", "\x00", "")
+		names = []string{"t", "t" + sep + "1", "default"}[:2+r.IntN(2)]
+		ix.Keys = []string{"1" + sep + "k", "k", "1", sep + "k"}
+		nk = len(ix.Keys)
+	}
+
 	for _, n := range names {
 		nd := 1 + r.IntN(3)
 		for d := 0; d < nd; d++ {
